@@ -224,6 +224,9 @@ theorem mkCore_numGPU (inp : Inp) : (mkCore inp).numGPU = inp.numGPU := by
 theorem mkCore_overhead (inp : Inp) : (mkCore inp).overhead = inp.overhead := by
   simp [mkCore]
 
+theorem mkCore_ovSafe (inp : Inp) : (mkCore inp).ovSafe = inp.ovSafe := by
+  simp [mkCore]
+
 /-- the plan's counting facts -/
 theorem plan_count (c : Core) (gpus : List Gpu) :
     let p := plan c gpus
@@ -308,35 +311,25 @@ def Good (c : Core) (N : List Nat) (s : GS) : Prop :=
 def FinalOk (c : Core) (s : GS) : Prop :=
   (s.alloc = 0 ∨ s.alloc + c.overhead ≤ s.free) ∧ (0 < s.count → s.alloc + c.overhead < s.free)
 
-theorem fits_good (c : Core) (N : List Nat) (s : GS) (L : Nat) (hL : L ∈ N) (hg : Good c N s)
-    (hf : fits c s L = true) :
+theorem fits_good (c : Core) (hv : c.ovSafe = false) (N : List Nat) (s : GS) (L : Nat) (hL : L ∈ N)
+    (hg : Good c N s) (hf : fits c s L = true) :
     Good c N { s with alloc := wr (s.alloc + L), count := s.count + 1 } := by
   obtain ⟨hok, hroom⟩ := hg
   refine ⟨?_, hroom⟩
   have hr := hroom L hL
   unfold fits at hf
+  simp only [hv, Bool.false_eq_true, ↓reduceIte, decide_eq_true_eq] at hf
   unfold OkG at hok ⊢
   unfold Room W at hr
-  unfold wr
+  simp only [hv, Bool.false_eq_true, ↓reduceIte] at hr
+  unfold wr at hf ⊢
   simp only
   right
-  split at hf
-  · rename_i hv
-    simp only [hv, ↓reduceIte] at hr
-    simp only [decide_eq_true_eq] at hf
-    unfold wr subW at hf
-    rcases hok with ⟨h0, _⟩ | ⟨h1, _⟩
-    · omega
-    · omega
-  · rename_i hv
-    simp only [hv] at hr
-    simp only [decide_eq_true_eq] at hf
-    unfold wr at hf
-    rcases hok with ⟨h0, _⟩ | ⟨h1, _⟩
-    · omega
-    · omega
+  rcases hok with ⟨h0, _⟩ | ⟨h1, _⟩
+  · omega
+  · omega
 
-theorem admit_good (c : Core) (N : List Nat) (L0 : Nat) (hL0 : L0 ∈ N) :
+theorem admit_good (c : Core) (hv : c.ovSafe = false) (N : List Nat) (L0 : Nat) (hL0 : L0 ∈ N) :
     ∀ (gpus : List Gpu) (i : Nat) (ws : List Nat),
       (∀ g ∈ gpus, ∀ L ∈ N, Room c g.free g.minimum L) →
       ∀ s ∈ (admit c i gpus ws).2, Good c N s := by
@@ -351,35 +344,29 @@ theorem admit_good (c : Core) (N : List Nat) (L0 : Nat) (hL0 : L0 ∈ N) :
     rw [admit] at hs
     generalize hgz : (if ws.isEmpty then c.gzo else 0) = gzo at hs
     have hgzle : gzo ≤ c.gzo := by subst hgz; split <;> omega
-    by_cases hadm : admitReject c g gzo = true
-    · simp only [hadm, ↓reduceIte, List.mem_cons] at hs
+    cases hadm : admitReject c g gzo with
+    | true =>
+      simp only [hadm, ↓reduceIte, List.mem_cons] at hs
       rcases hs with rfl | hs
       · exact ⟨Or.inl ⟨rfl, rfl⟩, hg⟩
       · exact ih (i + 1) ws hrest s hs
-    · have hadm' : admitReject c g gzo = false := by simpa using hadm
-      simp only [hadm', Bool.false_eq_true, ↓reduceIte, List.mem_cons] at hs
+    | false =>
+      simp only [hadm, Bool.false_eq_true, ↓reduceIte, List.mem_cons] at hs
       rcases hs with rfl | hs
       · refine ⟨?_, hg⟩
         have hr := hg L0 hL0
         unfold Room W at hr
+        simp only [hv, Bool.false_eq_true, ↓reduceIte] at hr
         unfold admitReject at hadm
+        simp only [hv, Bool.false_eq_true, ↓reduceIte, decide_eq_false_iff_not, Nat.not_lt] at hadm
+        unfold admitNeed wr at hadm
         unfold OkG wr
         simp only
         right
-        split at hadm
-        · rename_i hv
-          simp only [hv, ↓reduceIte] at hr
-          simp only [Bool.or_eq_true, decide_eq_true_eq, not_or, Nat.not_lt] at hadm
-          unfold wr subW at hadm
-          omega
-        · rename_i hv
-          simp only [hv] at hr
-          simp only [decide_eq_true_eq, Nat.not_lt] at hadm
-          unfold admitNeed wr at hadm
-          omega
+        omega
       · exact ih (i + 1) (ws ++ [i]) hrest s hs
 
-theorem layerLoop_good (c : Core) (N : List Nat) : ∀ (Ls : List Nat) (i : Nat) (st : St),
+theorem layerLoop_good (c : Core) (hv : c.ovSafe = false) (N : List Nat) : ∀ (Ls : List Nat) (i : Nat) (st : St),
     (∀ L ∈ Ls, L ∈ N) → (∀ s ∈ st.gs, Good c N s) →
     ∀ s ∈ (layerLoop c i Ls st).gs, Good c N s := by
   intro Ls
@@ -400,10 +387,10 @@ theorem layerLoop_good (c : Core) (N : List Nat) : ∀ (Ls : List Nat) (i : Nat)
         rw [hs0] at hs
         injection hs with hs
         subst hs
-        exact fits_good c N s0 L (hN L (by simp)) (h s0 (List.mem_of_getElem? hs0)) hf
+        exact fits_good c hv N s0 L (hN L (by simp)) (h s0 (List.mem_of_getElem? hs0)) hf
       · exact ih (i + 1) _ hrest h
 
-theorem addGraph_final (c : Core) (N : List Nat) (L0 : Nat) (hL0 : L0 ∈ N) (graph : Nat)
+theorem addGraph_final (c : Core) (hv : c.ovSafe = false) (N : List Nat) (L0 : Nat) (hL0 : L0 ∈ N) (graph : Nat)
     (hgr : graph ≤ c.maxg) (gs : List GS) (h : ∀ s ∈ gs, Good c N s) :
     ∀ s ∈ addGraph graph gs, FinalOk c s := by
   intro s hs
@@ -413,6 +400,7 @@ theorem addGraph_final (c : Core) (N : List Nat) (L0 : Nat) (hL0 : L0 ∈ N) (gr
   obtain ⟨hok, hroom⟩ := h s0 hs0
   have hr := hroom L0 hL0
   unfold Room W at hr
+  simp only [hv, Bool.false_eq_true, ↓reduceIte] at hr
   unfold OkG at hok
   unfold FinalOk
   split
@@ -433,13 +421,13 @@ theorem addGraph_final (c : Core) (N : List Nat) (L0 : Nat) (hL0 : L0 ∈ N) (gr
 def RoomAll (c : Core) (gpus : List Gpu) : Prop :=
   ∀ g ∈ gpus, ∀ L ∈ c.memOut :: c.layerSizes, Room c g.free g.minimum L
 
-theorem plan_final (c : Core) (gpus : List Gpu) (hroom : RoomAll c gpus) :
+theorem plan_final (c : Core) (hv : c.ovSafe = false) (gpus : List Gpu) (hroom : RoomAll c gpus) :
     (∀ s ∈ (plan c gpus).gs, FinalOk c s) ∧
     (plan c gpus).gs.map (·.free) = gpus.map (·.free) := by
   let N := c.memOut :: c.layerSizes
   have hmem : c.memOut ∈ N := by simp [N]
-  have hadm := admit_good c N c.memOut hmem gpus 0 [] hroom
-  have hloop := layerLoop_good c N c.layerSizes 0
+  have hadm := admit_good c hv N c.memOut hmem gpus 0 [] hroom
+  have hloop := layerLoop_good c hv N c.layerSizes 0
     { ws := (admit c 0 gpus []).1, gs := (admit c 0 gpus []).2, lc := 0 }
     (fun L hL => by simp [N, hL]) hadm
   have hfree := layerLoop_free c c.layerSizes 0
@@ -458,10 +446,10 @@ theorem plan_final (c : Core) (gpus : List Gpu) (hroom : RoomAll c gpus) :
   cases placed with
   | none =>
     simp only [addGraph_free]
-    exact ⟨addGraph_final c N c.memOut hmem _ (hgraph _) _ hloop, hfree⟩
+    exact ⟨addGraph_final c hv N c.memOut hmem _ (hgraph _) _ hloop, hfree⟩
   | some g =>
     simp only [addGraph_free, bump_free]
-    refine ⟨addGraph_final c N c.memOut hmem _ (hgraph _) _ ?_, hfree⟩
+    refine ⟨addGraph_final c hv N c.memOut hmem _ (hgraph _) _ ?_, hfree⟩
     split at hpl
     · obtain ⟨s0, hs0, hf⟩ := placeOut_some c st.gs st.ws st.lc c.memOut _ _ hpl
       apply bump_forall (Good c N) c.memOut st.gs g hloop
@@ -469,7 +457,7 @@ theorem plan_final (c : Core) (gpus : List Gpu) (hroom : RoomAll c gpus) :
       rw [hs0] at hs
       injection hs with hs
       subst hs
-      exact fits_good c N s0 c.memOut hmem (hloop s0 (List.mem_of_getElem? hs0)) hf
+      exact fits_good c hv N s0 c.memOut hmem (hloop s0 (List.mem_of_getElem? hs0)) hf
     · cases hpl
 
 /-! ### sums -/
